@@ -33,7 +33,7 @@ VARIABLES l, viol, run, maxdur, confirmed, offscript, ntoks, nruns
 Trace == ndJsonDeserialize(IOEnv.VERIF_TRACE)
 Ev == Trace[l]
 
-frozen == <<now, slack, ninst, nextTok, pc, tok, tokk, lastNow, overdue, waitFor, deadline, tnext, hist, lz, want, startAt, finishSeen>>
+frozen == <<now, slack, ninst, nextTok, pc, tok, tokk, lastNow, overdue, waitFor, deadline, tnext, hist, lz, want, startAt, finishSeen, lastNext>>
 tvars == <<vars, l, viol, run, maxdur, confirmed, offscript, ntoks, nruns>>
 
 TraceInit ==
